@@ -2,6 +2,8 @@
 import os, re
 import json
 import common as C
+import metamorph
+import scopegen
 
 LEVEL = "proof"
 
@@ -59,7 +61,7 @@ def expected(family, cfg, first, shell, multiline_shell_line, call_line):
     return out
 
 
-def run(res, ctx):
+def _run_main(res, ctx):
     from bandit.plugins import injection_shell
     default_cfg = injection_shell.gen_config("shell_injection")
     rng = C.rng_for(res.seed, "C14")
@@ -87,6 +89,13 @@ def run(res, ctx):
             call_line = shell_line = n_pre + 1
         exp = expected(family, cfg, first, shell, shell_line, call_line)
         cases.append((cfgname, src, exp, dict(family=family, q=q, first=first[0] if first else None, shell=shell[0], multiline=multiline)))
+        if not multiline and rng.random() < 0.5:
+            # the import sits inside a scope, something (a class, a method or nested def that merely has the same NAME) is defined between it and the
+            # call (seeded change C14-m7: any def named like a from-imported function dropped the import from the alias table)
+            stmt = "r_ = " + callee + "(" + ", ".join(args) + ")"
+            psrc, line, lab = scopegen.place(rng, pre, stmt, names=(callee.split(".")[0], q.split(".")[-1]))
+            pexp = expected(family, cfg, first, shell, line, line) if scopegen.visible(lab) else None
+            cases.append((cfgname, psrc, pexp, dict(family=family, q=q, first=first[0] if first else None, shell=shell[0], multiline=False, placed=lab)))
 
     for cfgname, cfg in (("default", default_cfg), ("user", USER_CFG)):
         fams = [("subprocess", q) for q in cfg["subprocess"]] + [("shell", q) for q in cfg["shell"]] + [("no_shell", q) for q in cfg["no_shell"]] + [("other", "thirdparty.launch")]
@@ -159,3 +168,9 @@ def run(res, ctx):
         scratch.close()
         if d is not None:
             d.close()
+
+
+def run(res, ctx):
+    _run_main(res, ctx)
+    # the neighbourhood of every construct of bandit's example files (harness/metamorph.py): model vs implementation on this family's ids
+    metamorph.family(res, ctx, C, {"B602", "B603", "B604", "B605", "B606", "B607", "B609"}, 600, 3000)
